@@ -10,6 +10,13 @@
              the result elements are distinct, both have the same footprint and extent and the result cells of element k
              meet operand cells of element k only -- so "element k of the result = Expected on the pre-call element k" is
              well defined for in-place calls; SameCells holds exactly for equal strides (contig = stride 3).
+   offsets:  the index lists include arrays that look packed / uniform on some lanes only (first and last entry 3 * (n - 1)
+             apart with a permuted or sparse middle, one half packed, first = last, descending): an index operand is
+             addressed like a strided one shifted by idx[1] exactly when the WHOLE list is uniform (IsUniform), not when
+             its ends are (LooksUniformAtEnds).
+   shared:   every row whose two inputs live in memory, all stride / index-list combinations, a and b the same array:
+             both footprints lie inside SharedExtent, its last cell is designated, and operand values read from one memory
+             satisfy SharedAgree.
    field:    over the 13-element field (GL with Phi = 4): for every a in F_13^3 and b from a generating subset (BSub = TRUE:
              the monomials, all-ones, a few mixed elements and their negatives; FALSE: every element with b0 in {0,1,12}
              or b1 = b2) the formulas the code uses -- the A..G Karatsuba forms of the _batch and of the _avx/_avx512
@@ -24,9 +31,12 @@ F3 == (0..(P - 1)) \X (0..(P - 1)) \X (0..(P - 1))
 Zero3 == <<0, 0, 0>>
 NoOp == [d |-> [elem |-> "ext", kind |-> "regs", param |-> ""], n |-> 4, s |-> 0, idx |-> <<>>]
 Strides == {0, 1, 2, 3, 4, 5, 7}
-Idx4 == {<<0,3,6,9>>, <<9,3,0,6>>, <<0,1,2,3>>, <<3,1,0,2>>, <<2,2,0,5>>, <<4,4,4,4>>, <<0,4,9,13>>, <<12,0,7,3>>, <<0,2,5,8>>}
+Idx4 == {<<0,3,6,9>>, <<9,3,0,6>>, <<0,1,2,3>>, <<3,1,0,2>>, <<2,2,0,5>>, <<4,4,4,4>>, <<0,4,9,13>>, <<12,0,7,3>>, <<0,2,5,8>>,
+         <<0,6,3,9>>, <<0,30,40,9>>, <<5,8,14,11>>, <<3,0,6,9>>, <<0,3,6,0>>, <<5,9,13,17>>, <<9,6,3,0>>}
 Idx8 == {<<0,3,6,9,12,15,18,21>>, <<21,18,15,12,9,6,3,0>>, <<3,3,3,3,3,3,3,3>>, <<5,0,5,1,9,9,2,0>>, <<1,0,3,2,5,4,7,6>>,
-         <<0,4,8,12,16,20,24,29>>, <<9,0,30,3,21,14,6,25>>}
+         <<0,4,8,12,16,20,24,29>>, <<9,0,30,3,21,14,6,25>>,
+         <<0,3,6,12,9,15,18,21>>, <<0,30,40,50,60,70,80,21>>, <<0,3,6,9,21,18,15,12>>, <<9,6,3,0,12,15,18,21>>,
+         <<0,3,6,9,12,15,18,0>>, <<40,43,49,46,52,55,58,61>>}
 TableDescs == UNION {{Table16[id].a, Table16[id].b, Table16[id].c} : id \in Ids16}
 AllDescs == TableDescs \cup {[elem |-> el, kind |-> k, param |-> (IF k \in {"stride", "index"} THEN "p" ELSE "")] :
                                el \in {"ext", "base"}, k \in {"contig", "stride", "index", "const"}}
@@ -45,9 +55,14 @@ ChooseAlias == /\ ph = "start" /\ ph' = "alias" /\ UNCHANGED <<od, fa, fb>>
                     LET r == Table16[id] IN
                     /\ m \in AliasModes(r) /\ InMem(r.c)
                     /\ \E cc \in Cfgs(r.c, r.lanes), xc \in Cfgs(r[m], r.lanes) : al' = [c |-> cc, x |-> xc]
+ChooseShared == /\ ph = "start" /\ ph' = "shared" /\ UNCHANGED <<od, fa, fb>>
+                /\ \E id \in Ids16 :
+                     LET r == Table16[id] IN
+                     /\ Shareable(r.a, r.b)
+                     /\ \E ac \in Cfgs(r.a, r.lanes), bc \in Cfgs(r.b, r.lanes) : al' = [c |-> ac, x |-> bc]
 ChooseA == ph = "start" /\ ph' = "fieldA" /\ fa' \in F3 /\ UNCHANGED <<od, al, fb>>
 ChooseB == ph = "fieldA" /\ ph' = "field" /\ fb' \in Bs /\ UNCHANGED <<od, al, fa>>
-Next == ChooseOperand \/ ChooseAlias \/ ChooseA \/ ChooseB
+Next == ChooseOperand \/ ChooseAlias \/ ChooseShared \/ ChooseA \/ ChooseB
 
 TableOk == ph = "start" => /\ \A id \in Ids16 : RowOk(Table16[id])
                            /\ Cardinality(Ids16) = 156
@@ -67,6 +82,10 @@ OperandInv ==
                                 /\ \A k \in 0..(n - 1), i \in 0..(w - 1) : Addr(d, k, i, s, ix) = Addr([d EXCEPT !.kind = "stride"], k, i, w, ix))
        /\ (d.kind = "stride" => (Disjoint(d, n, s, ix) = (s >= w)) /\ E = ((n - 1) * s) + w)
        /\ (d.kind = "index" => (Disjoint(d, n, s, ix) = Gap(ix, w)) /\ \A k \in 1..n : ix[k] \in F /\ (ix[k] + w) - 1 \in F)
+       /\ (d.kind = "index" => \A st \in Strides :
+               /\ IsUniform(ix, n, st) = (\A k \in 0..(n - 1), i \in 0..(w - 1) :
+                                             Addr(d, k, i, s, ix) = ix[1] + Addr([d EXCEPT !.kind = "stride"], k, i, st, <<>>))
+               /\ (IsUniform(ix, n, st) => LooksUniformAtEnds(ix, n, st) /\ AgreesOn(ix, 0..(n - 1), ix[1], st)))
        /\ (d.kind = "const" => F = (IF d.elem = "ext" THEN {0, 1, 2} ELSE {}))
        /\ (d.kind \in {"regs", "regs3", "reg"} => F = {} /\ E = 0)
        /\ (InMem(d) => \A k \in 0..(n - 1) : Cardinality(ElemCells(d, k, s, ix)) = w /\ ElemCells(d, k, s, ix) \subseteq F)
@@ -84,6 +103,21 @@ AliasInv ==
        /\ (c.d.kind = "stride" /\ x.d.kind = "contig" => same = (c.s = 3))
        /\ (c.d.kind = "contig" /\ x.d.kind = "contig" => same)
        /\ (c.d.kind = "index" /\ x.d.kind = "index" => same = (c.idx = x.idx))
+(* the index lists of the model do contain arrays whose ends look packed / uniform while the array is not *)
+ASSUME \E ix \in Idx4 : LooksUniformAtEnds(ix, 4, 3) /\ ~IsUniform(ix, 4, 3)
+ASSUME \E ix \in Idx8 : LooksUniformAtEnds(ix, 8, 3) /\ ~IsUniform(ix, 8, 3)
+ASSUME \E ix \in Idx8 : AgreesOn(ix, 0..3, ix[1], 3) /\ ~IsUniform(ix, 8, 3)
+SharedInv ==
+  ph = "shared" =>
+    LET a == al.c  b == al.x  n == a.n
+        Fa == Footprint(a.d, n, a.s, a.idx)  Fb == Footprint(b.d, n, b.s, b.idx)
+        SE == SharedExtent(a.d, b.d, n, a.s, a.idx, b.s, b.idx)
+        \* operand values read from ONE memory whose cell at position q holds q
+        Rd(c) == [k \in 1..n |-> [i \in 1..Width(c.d) |-> Addr(c.d, k - 1, i - 1, c.s, c.idx)]]
+    IN /\ (Fa \cup Fb) \subseteq 0..(SE - 1) /\ (SE - 1) \in (Fa \cup Fb)
+       /\ SE >= Extent(a.d, n, a.s, a.idx) /\ SE >= Extent(b.d, n, b.s, b.idx)
+       /\ SharedAgree(a.d, b.d, n, a.s, a.idx, b.s, b.idx, Rd(a), Rd(b))
+       /\ SharedAgree(a.d, b.d, n, a.s, a.idx, b.s, b.idx, Rd(a), [k \in 1..n |-> [i \in 1..Width(b.d) |-> 0 - 1]]) = (Fa \cap Fb = {})
 Ext == [elem |-> "ext", kind |-> "contig", param |-> ""]
 Bas == [elem |-> "base", kind |-> "contig", param |-> ""]
 FieldInv ==
